@@ -28,8 +28,8 @@ CHECKS = {
                       'writes, <= 3 injected errors per operation, <= 4 concurrent calls, <= 1 cancellation per call; '
                       'ack-lost COMMIT excluded; errors injected at COMMIT / ROLLBACK discard the transaction on the '
                       'server.',
-        'scenarios': [{'module': 'worlds.dbtx.tx', 'quick': 30000, 'thorough': 1500000},
-                      {'module': 'worlds.dbtx.concurrent', 'quick': 12000, 'thorough': 600000}],
+        'scenarios': [{'module': 'worlds.dbtx.tx', 'quick': 30000, 'thorough': 240000},
+                      {'module': 'worlds.dbtx.concurrent', 'quick': 12000, 'thorough': 96000}],
         'expected_probes': ['site_deadlock_stmt0', 'site_lock_timeout_stmt1', 'site_lost_conn_before_commit_commit',
                             'site_too_many_conn_connect', 'site_lost_conn_after_stmt2',
                             'transient_then_other_at_rollback', 'other_then_transient_at_rollback', 'site_killed_rollback',
